@@ -874,8 +874,15 @@ func (base *Type) mixin(derived *Type) {
 	// merge bits
 	if derived.bits == nil {
 		derived.bits = base.bits
-	} else if base.bits != nil {
-		derived.bits = append(derived.bits, base.bits...)
+	} else {
+		// RFC7950 Sec 9.7.4.2 - a derived type restricts the set, names keep their position
+		for _, item := range derived.bits {
+			for _, orig := range base.bits {
+				if orig.ident == item.ident && !item.positionSet {
+					item.Position, item.positionSet = orig.Position, true
+				}
+			}
+		}
 	}
 
 	derived.format = base.format
